@@ -547,6 +547,127 @@ theorem C09_calc_raw_least (size : Nat) (h : ¬ 2 * size ≤ maxPieces size) :
   · intro hpos
     exact pow2Search_least size (maxPieces size) size 0 k hk hpos
 
+/-! ### two objects: `Torrent.copy()` (round 5) -/
+
+/-- **What `copy()` carries over**: the metainfo (name, `length`/`files`, piece length, the hashes
+    with the stamp they were computed for, comment) — and nothing else: the copy has no content
+    path, four empty filter lists of its own (well formed), the class-default bounds. -/
+theorem C09_copy_carries (s : St) :
+    (copyOf s).name = s.name ∧ (copyOf s).content = s.content ∧ (copyOf s).pl = s.pl ∧
+    (copyOf s).pieces = s.pieces ∧ (copyOf s).comment = s.comment ∧ (copyOf s).path = none ∧
+    (copyOf s).exGlobs = [] ∧ (copyOf s).inGlobs = [] ∧ (copyOf s).exRegexs = [] ∧
+    (copyOf s).inRegexs = [] ∧ (copyOf s).pmin = defaultMin ∧ (copyOf s).pmax = defaultMax ∧
+    FiltersOk (copyOf s) ∧ size (copyOf s) = size s ∧ mode (copyOf s) = mode s :=
+  ⟨rfl, rfl, rfl, rfl, rfl, rfl, rfl, rfl, rfl, rfl, rfl, rfl, by simp [FiltersOk, copyOf, Attrs.init],
+   rfl, rfl⟩
+
+/-- **Independence.**  A step on one object leaves the other object's state — metainfo, content
+    path, bounds, all four filter lists — exactly as it was, and what it does to its own object
+    depends on that object's state only (the filter lists of a copy are its own, their callback is
+    its own `_filters_changed`); `other = this.copy()` does not change `this`. -/
+theorem C09_copy_independent (env : Env) (w : St2) (op : Op) :
+    (apply2 env w (.on false op)).1.b = w.b ∧ (apply2 env w (.on true op)).1.a = w.a ∧
+    (apply2 env w (.on false op)).1.a = (apply env w.a op).1 ∧
+    (apply2 env w (.on true op)).1.b = (apply env w.b op).1 ∧
+    (apply2 env w (.on false op)).2 = (apply env w.a op).2 ∧
+    (apply2 env w (.on true op)).2 = (apply env w.b op).2 ∧
+    (apply2 env w (.copy false)).1.a = w.a ∧ (apply2 env w (.copy true)).1.b = w.b ∧
+    (apply2 env w (.copy false)).1.b = copyOf w.a ∧ (apply2 env w (.copy true)).1.a = copyOf w.b :=
+  ⟨rfl, rfl, rfl, rfl, rfl, rfl, rfl, rfl, rfl, rfl⟩
+
+/-- The copy of an object that satisfies the invariant satisfies it too, if the source carries
+    no hashes and its piece length lies within the class-default bounds (`CopyOk`; the second
+    clause is open finding D09f). -/
+theorem C09_copy_inv (s : St) (h : Inv s) (hc : CopyOk s) : Inv (copyOf s) := by
+  obtain ⟨_, _, _, hpl, hpp, hcont, _⟩ := h
+  obtain ⟨hp, hb⟩ := hc
+  refine ⟨(by decide : defaultMin ≤ defaultMax), (by decide : Mult16 defaultMin),
+    (by decide : Mult16 defaultMax), ?_, hpp, hcont, ?_⟩
+  · unfold PlOk at hpl ⊢
+    show match s.pl with | none => True | some pl => Mult16 pl ∧ defaultMin ≤ pl ∧ pl ≤ defaultMax
+    cases hq : s.pl with
+    | none => exact True.intro
+    | some pl => rw [hq] at hpl hb; exact ⟨hpl.1, hb.1, hb.2⟩
+  · show StampOk (copyOf s)
+    unfold StampOk
+    show match s.pieces with | none => True | some g => Current (copyOf s) g
+    rw [hp]; exact True.intro
+
+/-- the counterexample behind D09f: explicit maximum 32 MiB, piece size 32 MiB; the copy has
+    `piece_size > piece_size_max` -/
+example : Inv { Attrs.init with pmax := 33554432, pl := some 33554432 } ∧
+    ¬ Inv (copyOf { Attrs.init with pmax := 33554432, pl := some 33554432 }) := by decide
+
+/-- **The invariant over two-object histories**: both objects satisfy `Inv` after every step that
+    satisfies `OpOk2` (an attribute operation satisfying `OpOk` on its own object, or a copy
+    satisfying `CopyOk`), hence after every history satisfying `AllOk2` on two fresh objects. -/
+theorem C09_inv2_step (env : Env) (w : St2) (op : Op2) (ha : Inv w.a) (hb : Inv w.b)
+    (hok : OpOk2 w op) : Inv (apply2 env w op).1.a ∧ Inv (apply2 env w op).1.b := by
+  cases op with
+  | on second o =>
+    cases second
+    · exact ⟨apply_inv ha env o hok, hb⟩
+    · exact ⟨ha, apply_inv hb env o hok⟩
+  | copy fromSecond =>
+    cases fromSecond
+    · exact ⟨ha, C09_copy_inv _ ha hok⟩
+    · exact ⟨C09_copy_inv _ hb hok, hb⟩
+
+theorem C09_inv2_reachable (env : Env) (ops : List Op2) :
+    ∀ w : St2, Attrs.Inv w.a → Attrs.Inv w.b → AllOk2 env w ops →
+      Attrs.Inv (run2 env w ops).a ∧ Attrs.Inv (run2 env w ops).b := by
+  induction ops with
+  | nil => intro w ha hb _; exact ⟨ha, hb⟩
+  | cons op ops ih =>
+    intro w ha hb hok
+    obtain ⟨h1, h2⟩ := C09_inv2_step env w op ha hb hok.1
+    exact ih _ h1 h2 hok.2
+
+theorem C09_inv2_history (env : Env) (ops : List Op2) (hok : AllOk2 env init2 ops) :
+    Attrs.Inv (run2 env init2 ops).a ∧ Attrs.Inv (run2 env init2 ops).b :=
+  C09_inv2_reachable env ops _ C09_inv_init C09_inv_init hok
+
+/-- The filter lists of **both** objects are well formed after every two-object history (no
+    hypothesis): a copy starts with empty lists of its own. -/
+theorem C09_filters_ok2_history (env : Env) (ops : List Op2) :
+    FiltersOk (run2 env init2 ops).a ∧ FiltersOk (run2 env init2 ops).b := by
+  suffices ∀ w : St2, FiltersOk w.a → FiltersOk w.b →
+      FiltersOk (run2 env w ops).a ∧ FiltersOk (run2 env w ops).b
+    from this _ C09_filters_ok_init C09_filters_ok_init
+  induction ops with
+  | nil => intro w ha hb; exact ⟨ha, hb⟩
+  | cons op ops ih =>
+    intro w ha hb
+    cases op with
+    | on second o =>
+      cases second
+      · exact ih _ (apply_filtersOk ha env o) hb
+      · exact ih _ ha (apply_filtersOk hb env o)
+    | copy fromSecond =>
+      cases fromSecond
+      · exact ih _ ha (C09_copy_carries w.a).2.2.2.2.2.2.2.2.2.2.2.2.1
+      · exact ih _ (C09_copy_carries w.b).2.2.2.2.2.2.2.2.2.2.2.2.1 hb
+
+/-- **A detached copy** (any object without a content path that carries hashes, e.g. the copy of
+    a hashed torrent) keeps its hashes through a content, piece-size or bound operation only if
+    that operation changed nothing the hashes depend on (no invariant needed: these setters drop
+    `pieces` on every path that changes something). -/
+theorem C09_copy_detached_survive (env : Env) (c : St) (g : Ghost) :
+    (∀ v, (setPath env c v).1.pieces = some g → Same c (setPath env c v).1) ∧
+    (∀ fs, (setFilesAttr env c fs).1.pieces = some g → Same c (setFilesAttr env c fs).1) ∧
+    (∀ ps, (setFilepathsAttr env c ps).1.pieces = some g → Same c (setFilepathsAttr env c ps).1) ∧
+    (∀ x, (setPieceSize c (some x)).1.pieces = some g → Same c (setPieceSize c (some x)).1) ∧
+    (∀ v, (setMin c v).1.pieces = some g → Same c (setMin c v).1) ∧
+    (∀ v, (setMax c v).1.pieces = some g → Same c (setMax c v).1) ∧
+    (c.path = none → (filtersChanged env c).1.pieces = some g → Same c (filtersChanged env c).1) :=
+  ⟨fun v => setPath_same env c v g, fun fs => setFilesAttr_same env c fs g,
+   fun ps => setFilepathsAttr_same env c ps g, fun x => checkAndStore_same c x g,
+   fun v => setMin_same v g, fun v => setMax_same v g,
+   fun hp hg => by
+     unfold filtersChanged at hg ⊢
+     rw [hp] at hg ⊢
+     exact setFilesAttr_same env c _ g hg⟩
+
 /-! ### non-vacuity: the hypotheses are met by histories that hash and then change things
    (a single-file torrent whose content path is the empty component list, so that `decide`
    never has to compare strings) -/
